@@ -51,7 +51,7 @@ def one(args):
     os.write(fd, mutated)
     os.close(fd)
     try:
-        res = run_props(props, m["file"] + "=" + path)
+        res = run_props(props, os.path.join(REPO, m["file"]) + "=" + path)
     finally:
         os.unlink(path)
     fired = {}
@@ -81,7 +81,7 @@ def main():
     muts = []
     for f in files:
         r = subprocess.run([MUTGEN, f], cwd=REPO, capture_output=True, text=True)
-        for m in json.loads(r.stdout):
+        for m in (json.loads(r.stdout) or []):
             muts.append(m)
     if a.limit:
         muts = muts[:a.limit]
